@@ -98,6 +98,14 @@ def corpus_types(facts):
 def w5(facts, tier):
     W = wire.WireAnalysis(facts)
     pe = packed.PackedEval(facts)
+
+    def erase_zst(l):
+        """a bulk copy of zero-sized elements moves no bytes"""
+        def f_(sym):
+            if isinstance(sym, tuple) and sym[0] in ("BULK", "RAW1") and len(sym) > 1 and (facts.layouts.get(sym[1]) or {}).get("size") == 0:
+                return rx.EPS
+            return rx.ev(sym)
+        return rx.subst(l, f_)
     for m in corpus_types(facts):
         ty = m["id"]
         wf, rf = impl_fn(facts, ty, SER, "serialize"), impl_fn(facts, ty, DES, "deserialize")
@@ -112,18 +120,18 @@ def w5(facts, tier):
                 mw, mr = model_writer_struct(m, v), model_reader_struct(m, v)
             else:
                 mw, mr = model_enum(m, v, False), model_enum(m, v, True)
-            mw = W.normalise(mw, "w", v, {})
-            mr = W.normalise(mr, "r", v, {})
+            mw = erase_zst(W.normalise(mw, "w", v, {}))
+            mr = erase_zst(W.normalise(mr, "r", v, {}))
             for pk in (False, True):
                 if pk and pe.decide(ty, v) is False:
                     continue   # the decision cannot say yes here (that it must not is rule P2)
                 g = {("Packed", ty): pk}
                 n_env += 1
-                lw = lang_of(W, facts, wf, v, g, "w")
+                lw = erase_zst(lang_of(W, facts, wf, v, g, "w"))
                 ok, info = lang_equal(W, lw, mw, v, g)
                 if ok is not True and bad is None:
                     bad = ("writer", v, pk, info, lw, mw)
-                lr = lang_of(W, facts, rf, v, g, "r")
+                lr = erase_zst(lang_of(W, facts, rf, v, g, "r"))
                 if m["kind"] == "enum":
                     # a reader may also accept variants that no writer of this version produces
                     a2, b2 = rx.minterm_expand([mr, lr])
@@ -361,7 +369,7 @@ def h2(facts, tier):
 # ---------------------------------------------------------------------------------------------
 # P2 / P5: the Packed decision against the compiler's layout
 
-@rule("P2", ["C04", "C01", "C02", "C12", "C18", "C10"], floor=250, doc="whenever repr_c_optimization_safe(v) can answer yes for a corpus type, rustc's layout of the type is "
+@rule("P2", ["C04", "C01", "C02", "C12", "C18", "C10", "C03"], floor=250, doc="whenever repr_c_optimization_safe(v) can answer yes for a corpus type, rustc's layout of the type is "
       "byte-identical to its field-by-field encoding at v (fields in wire order, contiguous from 0 to size_of, no padding, tag = "
       "variant index in the wire width, every wire field present in memory and vice versa)")
 def p2(facts, tier):
@@ -383,7 +391,7 @@ def p2(facts, tier):
                 ok, why = orc.ok(ty, v)
                 if not ok and bad is None:
                     bad = (v, why)
-        props = ["C04", "C01", "C02", "C12"] + (["C18", "C10"] if cur > 0 else [])
+        props = ["C04", "C01", "C02", "C12"] + (["C18", "C10", "C03"] if cur > 0 else [])
         if bad:
             v, why = bad
             root = root_cause(pe, orc, ty, v)
@@ -738,3 +746,38 @@ def p7(facts, tier):
                  f"{f['id']}: asks the Packed decision directly, for the version it is handed" if not state else
                  f"{f['id']}: the Packed decision is combined with shared state ({state[0]}): the answer obtained for one file version is "
                  f"reused for files of another version, and a Vec/array of an evolved struct is bulk-copied with the wrong layout")
+
+
+# ---------------------------------------------------------------------------------------------
+# H3 (C03): every declared conversion of a field is applied, each under its own version range
+
+@rule("H3", ["C03"], floor=2, doc="a field with two `savefile_versions_as` ranges of the same stored type but different conversion functions "
+      "(corpus type conv2::Conv2): the derived reader calls each conversion, and the two calls are guarded by different version tests - "
+      "adjoining ranges are not merged into one that applies the first conversion to both")
+def h3(facts, tier):
+    f = facts.fns.get("<sfcorpus::conv2::Conv2 as savefile::Deserialize>::deserialize")
+    if f is None:
+        yield ob(["C03"], "H3", "anchor", "violation", "", "derived reader of sfcorpus::conv2::Conv2 not found")
+        return
+    from ..flow import parent_map
+    pm = parent_map(f["body"])
+    guards = {}
+    for name in ("tenths_to_units", "hundredths_to_units"):
+        site = next((x for x in walk_(f["body"]) if x.get("k") == "Call" and (callee(x) or "").endswith("conv2::" + name)), None)
+        lits = None
+        if site is not None:
+            lits = []
+            p, ch = pm.get(id(site)), site
+            while p is not None:
+                if p.get("k") == "If" and ch is not p.get("c"):
+                    lits.append((tuple(sorted(y["int"] for y in walk_(p["c"]) if y.get("k") == "Lit" and "int" in y)), ch is p.get("t")))
+                ch, p = p, pm.get(id(p))
+        guards[name] = lits
+        yield ob(["C03"], "H3", name, "pass" if site is not None else "violation", where(f, site) if site is not None else where(f),
+                 f"the reader applies {name} (guards {lits})" if site is not None else
+                 f"the derived reader of Conv2 never calls {name}: files of the version range it was declared for are read through another "
+                 f"conversion (or none) - a stored 150 hundredths loads as 15 instead of 1")
+    if all(v is not None for v in guards.values()):
+        same = guards["tenths_to_units"] == guards["hundredths_to_units"]
+        yield ob(["C03"], "H3", "distinct-ranges", "violation" if same else "pass", where(f),
+                 "both conversions are applied under the same version tests" if same else "the two conversions are applied under different version tests")
